@@ -163,7 +163,13 @@ StepTags(pre, post, ev, a, ok, o) ==
                 /\ k \notin o.gone /\ k \notin DOMAIN o.orig,
           "C03_OneRecord") ELSE {}) \cup
   (IF ev # "EndBlock" THEN T(sameRecs, "C03_RecordLostOrChanged") ELSE {}) \cup
-  (IF ev # "Undelegate" /\ ev # "EndBlock" THEN T(DOMAIN post.recs = DOMAIN pre.recs, "C03_SpuriousRecord") ELSE {}) \cup
+  (IF ev = "MsgUndelegate" /\ ok
+   THEN T(/\ Cardinality(NewRecKeys(pre, post)) = Len(a.items)
+          /\ Cardinality(DOMAIN post.idxS) = Cardinality(DOMAIN pre.idxS) + Len(a.items)
+          /\ Cardinality(DOMAIN post.idxP) = Cardinality(DOMAIN pre.idxP) + Len(a.items)
+          /\ \A k \in NewRecKeys(pre, post) : post.recs[k].s = a.s /\ post.recs[k].a = "nat" /\ k \notin o.gone /\ k \notin DOMAIN o.orig,
+          "C03_OneRecord") ELSE {}) \cup
+  (IF ev \notin {"Undelegate", "MsgUndelegate", "EndBlock"} THEN T(DOMAIN post.recs = DOMAIN pre.recs, "C03_SpuriousRecord") ELSE {}) \cup
   \* --- C03: release timing and credit at EndBlock(h), h = pre.h ---
   (IF ev = "EndBlock" THEN
      LET rel == DOMAIN pre.recs \ DOMAIN post.recs
